@@ -125,20 +125,24 @@ def unrelateOn (l : ALinks) (x y : Inst) : ALinks × Out :=
     | none => ({ l with src := s' }, .unrelateExc)
     | some t' => ({ src := s', tgt := t' }, .ok)
 
+/-- `_find_link` returns the pair as (target-class instance, source-class instance) -/
+def orient (d : Dir) (i1 i2 : Inst) : Inst × Inst :=
+  match d with
+  | .fwd => (i1, i2)
+  | .rev => (i2, i1)
+
 def relate (sch : Schema) (s : State) (i1 i2 : Inst) (rel phrase : String) : State × Out :=
   match findLink sch (s.kindOf i1) (s.kindOf i2) rel phrase with
   | none => (s, .unknownLink)
   | some (i, d) =>
-    let (x, y) := match d with | .fwd => (i1, i2) | .rev => (i2, i1)
-    let r := relateOn (specAt sch i) (s.links i) x y
+    let r := relateOn (specAt sch i) (s.links i) (orient d i1 i2).1 (orient d i1 i2).2
     ({ s with links := upd s.links i r.1 }, r.2)
 
 def unrelate (sch : Schema) (s : State) (i1 i2 : Inst) (rel phrase : String) : State × Out :=
   match findLink sch (s.kindOf i1) (s.kindOf i2) rel phrase with
   | none => (s, .unknownLink)
   | some (i, d) =>
-    let (x, y) := match d with | .fwd => (i1, i2) | .rev => (i2, i1)
-    let r := unrelateOn (s.links i) x y
+    let r := unrelateOn (s.links i) (orient d i1 i2).1 (orient d i1 i2).2
     ({ s with links := upd s.links i r.1 }, r.2)
 
 /-- `MetaClass.new` for the part C02 needs: allocate, append to the pool, hand out an id -/
@@ -167,23 +171,19 @@ def linksOf (sch : Schema) (k : Kind) : List (Nat × Bool × String) := linksOfF
 def unrelateAll (sch : Schema) (x : Inst) (rel phrase : String) : List Inst → State → State × Out
   | [], s => (s, .ok)
   | y :: ys, s =>
-    match unrelate sch s x y rel phrase with
-    | (s', .ok) => unrelateAll sch x rel phrase ys s'
-    | (s', o) => (s', o)
+    let r := unrelate sch s x y rel phrase
+    if r.2 = .ok then unrelateAll sch x rel phrase ys r.1 else r
 
 def deleteLinks (sch : Schema) (x : Inst) : List (Nat × Bool × String) → State → State × Out
   | [], s => (s, .ok)
   | (i, isSrc, phrase) :: rest, s =>
-    let partners := if isSrc then (s.links i).src x else (s.links i).tgt x
-    match unrelateAll sch x (specAt sch i).rel phrase partners s with
-    | (s', .ok) => deleteLinks sch x rest s'
-    | (s', o) => (s', o)
+    let r := unrelateAll sch x (specAt sch i).rel phrase (if isSrc then (s.links i).src x else (s.links i).tgt x) s
+    if r.2 = .ok then deleteLinks sch x rest r.1 else r
 
 def delete (sch : Schema) (s : State) (x : Inst) : State × Out :=
-  let k := s.kindOf x
-  if x ∈ s.pool k ∧ x < s.count then
-    let s1 := { s with pool := upd s.pool k ((s.pool k).erase x) }
-    deleteLinks sch x (linksOf sch k) s1
+  if x ∈ s.pool (s.kindOf x) ∧ x < s.count then
+    deleteLinks sch x (linksOf sch (s.kindOf x))
+      { s with pool := upd s.pool (s.kindOf x) ((s.pool (s.kindOf x)).erase x) }
   else (s, .deleteExc)
 
 /-! operations as data, so that "any history" is a fold -/
